@@ -130,7 +130,8 @@ func compare(rec *opRec, got *xmltree.Node, streamNS string, s2s bool, local str
 
 // partialForms are calls that fail (or are abandoned) in the middle of their
 // element.
-var partialForms = []string{"Send:reader-fails", "SendElement:payload-reader-fails", "Encode:xmlstream.Marshaler-fails", "Encode:xmlstream.WriterTo-fails", "TokenWriter:closed-mid-element"}
+var partialForms = []string{"Send:reader-fails", "SendElement:payload-reader-fails", "Encode:xmlstream.Marshaler-fails", "Encode:xmlstream.WriterTo-fails", "TokenWriter:closed-mid-element",
+	"Send:reader-ends-with-element-open", "SendElement:payload-ends-with-element-open"}
 
 var errPartial = errors.New("verif: injected failure in mid-element")
 
@@ -170,6 +171,12 @@ func doPartial(s *xmpp.Session, form string) error {
 		return s.Send(ctx, &failingReader{toks: whole})
 	case "SendElement:payload-reader-fails":
 		return s.SendElement(ctx, &failingReader{toks: inner}, start)
+	case "Send:reader-ends-with-element-open":
+		// the reader ends (io.EOF, no error) while <body> is still open: the
+		// copy succeeds and it is the stanza's own end tag that is refused
+		return s.Send(ctx, reader(whole))
+	case "SendElement:payload-ends-with-element-open":
+		return s.SendElement(ctx, reader(inner), start)
 	case "Encode:xmlstream.Marshaler-fails":
 		return s.Encode(ctx, failingMarshaler{whole})
 	case "Encode:xmlstream.WriterTo-fails":
@@ -467,7 +474,7 @@ func runHistory(c *core.Case) {
 		p.Lib.Close()
 		return
 	}
-	// ---- final phase (a third of the histories, the five forms in turn): one call that fails in the
+	// ---- final phase (a third of the histories, the seven forms in turn): one call that fails in the
 	// middle of its element, then ordinary calls, which must be complete
 	// top-level elements like any other successful call
 	partialForm := ""
@@ -755,7 +762,7 @@ func trunc(s string) string {
 
 // Prop returns the C05 check.
 func Prop() *core.Prop {
-	req := []string{"histories", "histories_with_transmits_racing_close", "C10/transmits_overlapping_a_close", "sessions_from_the_default_negotiator", "s2s_sessions_whose_peer_header_omits_to", "histories_with_partial_failure", "partial:Send:reader-fails", "partial:SendElement:payload-reader-fails", "partial:Encode:xmlstream.Marshaler-fails", "partial:Encode:xmlstream.WriterTo-fails", "partial:TokenWriter:closed-mid-element", "component_streams", "invalid_argument_calls", "incoming_stanzas_nobody_answers", "handler_replies_after_refused_writes", "handler_replies_abandoned_in_mid_element", "calls_overlapping_another_actor", "elements_spanning_several_writes", "auto_replies", "wire_stanzas"}
+	req := []string{"histories", "histories_with_transmits_racing_close", "C10/transmits_overlapping_a_close", "sessions_from_the_default_negotiator", "s2s_sessions_whose_peer_header_omits_to", "histories_with_partial_failure", "partial:Send:reader-fails", "partial:SendElement:payload-reader-fails", "partial:Encode:xmlstream.Marshaler-fails", "partial:Encode:xmlstream.WriterTo-fails", "partial:TokenWriter:closed-mid-element", "partial:Send:reader-ends-with-element-open", "partial:SendElement:payload-ends-with-element-open", "component_streams", "invalid_argument_calls", "incoming_stanzas_nobody_answers", "handler_replies_after_refused_writes", "handler_replies_abandoned_in_mid_element", "calls_overlapping_another_actor", "elements_spanning_several_writes", "auto_replies", "wire_stanzas"}
 	for _, e := range []string{"Send", "SendElement", "Encode", "EncodeElement", "TokenWriter", "HandlerReply",
 		"SendIQ", "SendIQElement", "EncodeIQ", "EncodeIQElement", "UnmarshalIQ", "UnmarshalIQElement", "IterIQ", "IterIQElement",
 		"SendMessage", "SendMessageElement", "EncodeMessage", "EncodeMessageElement",
